@@ -241,3 +241,60 @@ Proof.
   unfold om_assemble_hm. destruct (self_check nested ms); simpl; split; split; auto; discriminate.
 Qed.
 End Proofs.
+
+(* The checks do not depend on anything attached to a triangle besides the identities of its vertices and what the
+   predicate sees: decorate every triangle with arbitrary data D (its index in the geometry - unsigned(-1) for an
+   isolated mesh -, the current-barrier / isolated / outermost flags of its mesh, ...): the verdicts are those of the
+   undecorated meshes.  In particular selfCheck is the same with and without a conductivity file. *)
+Section Decorated.
+Variable T D : Type.
+Variable vid : T -> nat * nat * nat.
+Variable isect : T -> T -> bool.
+Let T' : Type := (D * T)%type.
+Let vid' (t : T') := vid (snd t).
+Let isect' (a b : T') := isect (snd a) (snd b).
+
+Lemma existsb_map {A B} (f : A -> B) (g : B -> bool) l : existsb g (map f l) = existsb (fun x => g (f x)) l.
+Proof. induction l; simpl; auto. rewrite IHl. reflexivity. Qed.
+
+Lemma existsb_ext' {A} (f g : A -> bool) l : (forall x, f x = g x) -> existsb f l = existsb g l.
+Proof. intro H. induction l; simpl; auto. rewrite H, IHl. reflexivity. Qed.
+
+Lemma pairs_ex_decorated guard' guard (Hg : forall a b, guard' a b = guard (snd a) (snd b)) (m : list T') :
+  pairs_ex T' isect' guard' m = pairs_ex T isect guard (map snd m).
+Proof.
+  induction m as [|t m IH]; [reflexivity|].
+  cbn [pairs_ex map]. rewrite IH. f_equal.
+  change (snd t :: map snd m) with (map snd (t :: m)). rewrite existsb_map.
+  apply existsb_ext'. intros x. unfold isect'. rewrite Hg. reflexivity.
+Qed.
+
+Lemma hsi_decorated (m : list T') :
+  has_self_intersection T' vid' isect' m = has_self_intersection T vid isect (map snd m).
+Proof.
+  unfold has_self_intersection. rewrite !hsi_loop_spec. cbn [orb].
+  apply pairs_ex_decorated. intros a b. reflexivity.
+Qed.
+
+Lemma mesh_intersection_decorated (m1 m2 : list T') :
+  mesh_intersection T' isect' m1 m2 = mesh_intersection T isect (map snd m1) (map snd m2).
+Proof.
+  apply eq_true_iff_eq. rewrite !mesh_intersection_iff. split.
+  - intros (t1 & t2 & H1 & H2 & H). exists (snd t1), (snd t2). repeat split; auto; apply in_map; auto.
+  - intros (t1 & t2 & H1 & H2 & H). apply in_map_iff in H1. apply in_map_iff in H2.
+    destruct H1 as (a & Ea & Ha), H2 as (b & Eb & Hb). exists a, b. subst. auto.
+Qed.
+
+Lemma self_check_decorated nested (ms : list (list T')) :
+  self_check T' vid' isect' nested ms = self_check T vid isect nested (map (map snd) ms).
+Proof.
+  unfold self_check. generalize true.
+  induction ms as [|m1 r IH]; intro ok; [reflexivity|].
+  cbn [self_check_loop map]. rewrite hsi_decorated.
+  set (ok1 := if has_self_intersection T vid isect (map snd m1) then false else ok).
+  assert (E : forall a, fold_left (fun a m2 => if mesh_intersection T' isect' m1 m2 then false else a) r a
+                      = fold_left (fun a m2 => if mesh_intersection T isect (map snd m1) m2 then false else a) (map (map snd) r) a).
+  { clear. induction r as [|m2 r IHr]; intro a; [reflexivity|]. cbn [fold_left map]. rewrite mesh_intersection_decorated. apply IHr. }
+  destruct nested; [rewrite E|]; apply IH.
+Qed.
+End Decorated.
